@@ -109,7 +109,13 @@ func (c *Conn) query(ctx context.Context, query string, args []interface{}, pre 
 	if err != nil {
 		return nil, err
 	}
-	return &Rows{cols: out.cols, rows: out.rows, binary: binary, failAt: out.failAt, failErr: out.failErr}, nil
+	rows := &Rows{cols: out.cols, rows: out.rows, binary: binary, failAt: out.failAt, failErr: out.failErr}
+	// like go-sql-driver/mysql, the connection is busy with this result until it has been read to its end or
+	// closed: another command sent meanwhile fails ("busy buffer", driver.ErrBadConn)
+	c.s.e.mu.Lock()
+	c.s.pending = rows
+	c.s.e.mu.Unlock()
+	return rows, nil
 }
 
 // connBinary: go-sql-driver uses the binary protocol whenever a statement has
@@ -380,6 +386,7 @@ type Rows struct {
 	failAt  int
 	failErr error
 	buf     []byte
+	drained bool // read to its end, or closed
 }
 
 var (
@@ -397,13 +404,14 @@ func (r *Rows) Columns() []string {
 	return out
 }
 
-func (r *Rows) Close() error { r.pos = len(r.rows); return nil }
+func (r *Rows) Close() error { r.pos = len(r.rows); r.drained = true; return nil }
 
 func (r *Rows) Next(dest []driver.Value) error {
 	if r.failAt > 0 && r.pos+1 >= r.failAt {
 		return r.failErr
 	}
 	if r.pos >= len(r.rows) {
+		r.drained = true
 		return io.EOF
 	}
 	row := r.rows[r.pos]
